@@ -61,6 +61,19 @@ SAFE_ATTR_CALLS = {
 for _n in ('ge', 'gt', 'le', 'lt', 'eq', 'ne', 'not_', 'truth', 'is_', 'is_not', 'add', 'sub', 'mul', 'truediv', 'floordiv', 'mod', 'neg',
            'and_', 'or_', 'xor', 'contains', 'itemgetter', 'getitem'):
     SAFE_ATTR_CALLS['operator.' + _n] = getattr(operator, _n)
+import itertools as _itertools
+import functools as _functools
+PURE_IMPORTS = {}
+for _n in ('groupby', 'chain', 'product', 'count', 'islice', 'zip_longest', 'repeat', 'accumulate', 'takewhile', 'dropwhile', 'starmap',
+           'permutations', 'combinations', 'tee', 'cycle', 'compress', 'filterfalse'):
+    PURE_IMPORTS['itertools.' + _n] = getattr(_itertools, _n)
+for _n in ('reduce', 'partial'):
+    PURE_IMPORTS['functools.' + _n] = getattr(_functools, _n)
+for _n in ('ge', 'gt', 'le', 'lt', 'eq', 'ne', 'not_', 'truth', 'is_', 'is_not', 'add', 'sub', 'mul', 'truediv', 'floordiv', 'mod', 'neg',
+           'and_', 'or_', 'xor', 'contains', 'itemgetter', 'attrgetter', 'getitem'):
+    PURE_IMPORTS['operator.' + _n] = getattr(operator, _n)
+for _n in ('OrderedDict', 'Counter', 'defaultdict', 'namedtuple', 'deque'):
+    PURE_IMPORTS['collections.' + _n] = getattr(collections, _n) if _n != 'OrderedDict' else dict
 SAFE_METHODS = {
     str: {'join', 'replace', 'startswith', 'endswith', 'lower', 'upper', 'strip', 'lstrip', 'rstrip', 'split', 'format', 'isdigit',
           'isdecimal', 'isalpha', 'isalnum', 'find', 'index', 'count', 'title', 'isupper', 'islower', 'splitlines', 'encode',
@@ -584,6 +597,8 @@ class Interp:
                     return self._modconst(m2, tn)
             if e.id in self.extra_names:
                 return self.extra_names[e.id]
+            if s is not None and s.kind == 'ext' and s.target in PURE_IMPORTS:
+                return PURE_IMPORTS[s.target]          # from itertools import groupby ...: pure helpers of the standard library
             if e.id in SAFE_BUILTINS:
                 return SAFE_BUILTINS[e.id]
             raise Unsupported('name %s' % e.id)
@@ -1011,8 +1026,10 @@ class Interp:
             lam, cenv, mod = f[1], f[2], f[3]
             env = self._bind_local(lam.args, args, kwargs, cenv, mod, 'lambda', f[4] if len(f) > 4 else None)
             return self.expr(lam.body, env, mod)
-        if callable(f) and (f in SAFE_BUILTINS.values() or f in SAFE_ATTR_CALLS.values()):
+        if callable(f) and (f in SAFE_BUILTINS.values() or f in SAFE_ATTR_CALLS.values() or any(f is v for v in PURE_IMPORTS.values())):
             return f(*self._py(args), **{k: self._py1(v) for k, v in kwargs.items()})
+        if isinstance(f, (operator.itemgetter, operator.attrgetter)):
+            return f(*self._py(args))
         if isinstance(f, type) and issubclass(f, tuple) and hasattr(f, '_fields'):
             return f(*args, **kwargs)          # a namedtuple class made by the evaluated module
         if _is_model(f) or _foreign(self, f) or getattr(f, '_pyeval_model', False) or any(f is v for v in self.extra_names.values()):
